@@ -498,6 +498,10 @@ func (i If) byteCode(srcsel int, fl flags.Pass, cr compResult) bytecode.Type {
 		*cr.DS = append(*cr.DS, value.Nil)
 		instr = bytecode.New(bytecode.PUSH) | bytecode.EncodeSrc(0, bytecode.AddrDS, ix)
 		*cr.CS = append(*cr.CS, instr)
+
+		// whichever way the condition goes a value is now on the stack, also when the true
+		// case itself has none to report because it returns
+		dest = bytecode.EncodeSrc(srcsel, bytecode.AddrStck, 0)
 	}
 
 	// patch the JMPF
